@@ -43,24 +43,39 @@ package cookie
 //@ ensures[otherwise-split] called(splitCookie) ==> arg(splitCookie, 0) == ret(makeCookie) && ret0 == ret(splitCookie)
 
 //@ func (*SessionStore).makeCookie
+//@ nomod
+//@ fresh
 //@ prop C18 C09
 //@ ensures[single-constructor] ret0 == ret(MakeCookieFromOptions) && arg(MakeCookieFromOptions, 0) == req && arg(MakeCookieFromOptions, 1) == name
 //@     && arg(MakeCookieFromOptions, 2) == value && arg(MakeCookieFromOptions, 3) == s.Cookie && arg(MakeCookieFromOptions, 4) == expiration
 
 // ------------------------------------------------------------------ C11 / C18: clear
-// NamesCovered: every cookie name Save can emit for a session (the base name and name_k for every part index k)
-// matches the deletion pattern built from the quoted cookie name.
-//@ prop C11
-//@ lemma[NamesCovered; uses quoted-name-pattern] forall n string, k int :: k >= 0 ==> reMatch(reCompile("^" + quoteMeta(n) + "(_\\d+)?$"), n)
-//@     && reMatch(reCompile("^" + quoteMeta(n) + "(_\\d+)?$"), n + "_" + itoa(k))
-//@ lemma[OtherNamesUntouched; uses quoted-name-pattern] forall n string, x string :: reMatch(reCompile("^" + quoteMeta(n) + "(_\\d+)?$"), x) ==> HasPrefix(x, n)
+// A request cookie is a session cookie exactly when its name is the configured name or a part name as splitCookieName
+// produces it (including the truncated form used for long names).
+// partName: the name splitCookieName gives part k of a cookie (cut so that the whole name stays within 256 bytes)
+//@ define partName(n string, k int) string = ite(len(n) + 1 + len(itoa(k)) <= 256, n + "_" + itoa(k), n[:255 - len(itoa(k))] + "_" + itoa(k))
+
+//@ func isSessionCookieName
+//@ safety
+//@ nomod
+//@ prop C11 C10 C19
+//@ requires[config:cookie-name-at-most-256-bytes] len(cookieName) <= 256
+//@ ensures[the-base-name-is-a-session-cookie-name] name == cookieName ==> result
+//@ ensures[only-names-save-can-emit] result ==> name == cookieName || (called(splitCookieName) && name == ret(splitCookieName)
+//@     && arg(splitCookieName, 0) == cookieName && arg(splitCookieName, 1) >= 0)
+// The converse (every part name partName(cookieName, k), k >= 0, is recognised) needs LastIndex/Atoi reasoning over the
+// decimal rendering that none of the three solvers finishes (2 min each); it is covered by the bounded stand-in
+// bounded/session_cookie_names_test.go.txt (labelled bounded, not counted as proved).
 
 //@ func (*SessionStore).Clear
-//@ prop C11 C18
-//@ at call regexp.MustCompile assert[pattern-from-the-quoted-cookie-name] arg(regexp.MustCompile, 0) == "^" + quoteMeta(s.Cookie.Name) + "(_\\d+)?$"
-//@ at call MatchString assert[matches-with-that-pattern] arg(MatchString, 0) == ret(regexp.MustCompile)
+//@ prop C11 C18 C10
+//@ loop 0 ghost nsess int init 0 step ite(ret(isSessionCookieName), nsess + 1, nsess)
+//@ loop 0 ghost ndel int init 0 step ite(called(http.SetCookie), ndel + 1, ndel)
+//@ loop 0 invariant[one-deletion-per-presented-session-cookie] nsess == ndel
+//@ at call isSessionCookieName assert[asks-about-each-presented-cookie-under-the-configured-name] arg(isSessionCookieName, 0) == s.Cookie.Name
+//@     && arg(isSessionCookieName, 1) == c.Name
 //@ at call makeCookie assert[deletion-same-name-empty-expired] arg(makeCookie, 2) == c.Name && arg(makeCookie, 3) == ""
-//@     && arg(makeCookie, 4) < 0 && ret(MatchString) && arg(MatchString, 1) == c.Name
+//@     && arg(makeCookie, 4) < 0 && ret(isSessionCookieName)
 //@ at call http.SetCookie assert[sets-the-deletion] arg(http.SetCookie, 1) == ret(makeCookie) && arg(http.SetCookie, 0) == rw
 //@ ensures[never-fails] ret0 == nil
 
@@ -82,6 +97,7 @@ package cookie
 //@ prop C10 C19
 //@ requires[config:cookie-name-at-most-256-bytes] len(name) <= 256
 //@ ensures[name-underscore-index-when-it-fits] len(name) + 1 + len(itoa(count)) <= 256 && count >= 0 ==> result == name + "_" + itoa(count)
+//@ ensures[long-names-are-cut-to-256-bytes] count >= 0 ==> result == partName(name, count)
 
 // ghost acc: the concatenation, in emission order, of the values of the cookies appended so far
 //@ func splitCookie
@@ -128,10 +144,13 @@ package cookie
 //@ prop C10 C18
 //@ at call http.SetCookie#0 assert[sets-every-part] arg(http.SetCookie#0, 0) == rw && ret1(makeSessionCookie) == nil
 //@     && arg(http.SetCookie#0, 1) == ret0(makeSessionCookie)[rangeindex + 1]
-//@ at call regexp.MustCompile assert[stale-cookie-pattern-from-the-quoted-cookie-name] arg(regexp.MustCompile, 0) == "^" + quoteMeta(s.Cookie.Name) + "(_\\d+)?$"
+//@ at call isSessionCookieName assert[asks-about-each-presented-cookie-under-the-configured-name] arg(isSessionCookieName, 0) == s.Cookie.Name
+//@     && arg(isSessionCookieName, 1) == c.Name
 //@ at call makeCookie assert[deletes-only-presented-session-cookies-not-just-set] arg(makeCookie, 2) == c.Name && arg(makeCookie, 3) == ""
-//@     && arg(makeCookie, 4) < 0 && ret(MatchString) && arg(MatchString, 1) == c.Name && arg(MatchString, 0) == ret(regexp.MustCompile)
-//@     && !inmap(set, c.Name)
+//@     && arg(makeCookie, 4) < 0 && ret(isSessionCookieName) && !inmap(set, c.Name)
+//@ loop 1 ghost nstale int init 0 step ite(!inmap(set, c.Name) && ret(isSessionCookieName), nstale + 1, nstale)
+//@ loop 1 ghost ndel int init 0 step ite(called(http.SetCookie#1), ndel + 1, ndel)
+//@ loop 1 invariant[one-deletion-per-stale-session-cookie] nstale == ndel
 //@ at call http.SetCookie#1 assert[issues-that-deletion] arg(http.SetCookie#1, 1) == ret(makeCookie) && arg(http.SetCookie#1, 0) == rw
 //@ ensures[error-sets-nothing] ret1(makeSessionCookie) != nil ==> ret0 != nil && !called(http.SetCookie)
 
